@@ -65,7 +65,7 @@ Proof. split; vm_compute; reflexivity. Qed.
 Lemma order_cn_rk2 :
   additive_order2_ok 0 rk2_tab = true /\
   additive_order3_ok 0 rk2_tab = false /\ explicit_order3_tall_ok 0 rk2_tab = false.
-Proof. repeat split; vm_compute; reflexivity. Qed.
+Proof. repeat (match goal with |- _ /\ _ => split end); vm_compute; reflexivity. Qed.
 
 (** Williamson RK3 + CN (generated alphas/betas/gammas -> Butcher form): order 2
     as an additive scheme (exact), order 3 for the explicit part (exact), the
@@ -73,7 +73,7 @@ Proof. repeat split; vm_compute; reflexivity. Qed.
 Lemma order_cn_rk3 :
   additive_order2_ok 0 rk3_tab = true /\ explicit_order3_ok 0 rk3_tab = true /\
   additive_order3_ok 0 rk3_tab = false /\ explicit_order4_ok 0 rk3_tab = false.
-Proof. repeat split; vm_compute; reflexivity. Qed.
+Proof. repeat (match goal with |- _ /\ _ => split end); vm_compute; reflexivity. Qed.
 
 (** Carpenter-Kennedy RK4 + CN, 13-digit decimals: every condition of additive
     order 2 and of explicit order 3 and 4 (and the stage-time consistency) holds
@@ -85,7 +85,7 @@ Lemma order_cn_rk4 :
   explicit_order3_ok eps13 rk4_tab = true /\ explicit_order4_ok eps13 rk4_tab = true /\
   coupling_bIcEcE_ok (1 # 1000) rk4_tab = false /\
   explicit_order5_bushy_ok (1 # 100000) rk4_tab = false.
-Proof. repeat split; vm_compute; reflexivity. Qed.
+Proof. repeat (match goal with |- _ /\ _ => split end); vm_compute; reflexivity. Qed.
 
 (** SIL3: additive order 2 (exact); explicit part: the order-3 tall tree holds
     (order 3 for linear F) while the bushy tree fails (order 2 for nonlinear F);
@@ -94,7 +94,7 @@ Lemma order_sil3 :
   additive_order2_ok 0 sil3_tab = true /\
   explicit_order3_tall_ok 0 sil3_tab = true /\ explicit_order3_bushy_ok 0 sil3_tab = false /\
   explicit_order4_tall_ok 0 sil3_tab = false /\ additive_order3_ok 0 sil3_tab = false.
-Proof. repeat split; vm_compute; reflexivity. Qed.
+Proof. repeat (match goal with |- _ /\ _ => split end); vm_compute; reflexivity. Qed.
 
 (** The generated RK4 coefficients are the Carpenter-Kennedy (1994) RK4(3)5[2N]
     coefficients (published as rationals A_k, B_k, c_k) to 6e-13. *)
@@ -114,7 +114,7 @@ Lemma rk4_near_carpenter_kennedy :
   let eps := (6 # 10000000000000)%Q in
   close_lists eps rk4_betas ck_A = true /\ close_lists eps rk4_gammas ck_B = true /\
   close_lists eps rk4_alphas ck_c = true.
-Proof. repeat split; vm_compute; reflexivity. Qed.
+Proof. cbv zeta. repeat (match goal with |- _ /\ _ => split end); vm_compute; reflexivity. Qed.
 
 (** * 2. Linear test equation: Taylor coefficients of the one-step multiplier.
     The step functions of the model are run in Q[[x,y]]/(x^N, y^N) (F = x.,
@@ -167,7 +167,7 @@ Lemma linear_taylor_series :
   (is_some_ser ser_sil3 = true /\
    taylor_upto 0 2 (some_ser ser_sil3) E = true /\ taylor_x_upto 0 3 (some_ser ser_sil3) E = true /\
    taylor_upto 0 3 (some_ser ser_sil3) E = false /\ taylor_x_upto 0 4 (some_ser ser_sil3) E = false).
-Proof. cbv zeta. repeat split; vm_compute; reflexivity. Qed.
+Proof. cbv zeta. repeat (match goal with |- _ /\ _ => split end); vm_compute; reflexivity. Qed.
 
 (** Leapfrog: started from exact snapshots exp(-(x+y)) and 1, the future snapshot
     agrees with exp(x+y) to total degree 2 exactly when alpha = 1/2 is used
@@ -177,7 +177,7 @@ Lemma leapfrog_second_order_series :
   taylor_upto 0 3 (ser_leapfrog leapfrog_alpha_default) (ser_exp 1) = false /\
   taylor_upto 0 1 (ser_leapfrog 1) (ser_exp 1) = true /\
   taylor_upto 0 2 (ser_leapfrog 1) (ser_exp 1) = false.
-Proof. repeat split; vm_compute; reflexivity. Qed.
+Proof. repeat (match goal with |- _ /\ _ => split end); vm_compute; reflexivity. Qed.
 
 (** * 5. Length validation (the acceptance predicates are generated) *)
 Ltac zbool :=
@@ -247,3 +247,217 @@ Proof.
     + intros i Hi. specialize (H4 i Hi). lia.
     + intros i Hi. specialize (H5 i Hi). lia.
 Qed.
+
+(** * 3. Reduction to the underlying explicit / implicit method
+    (any carrier, any vector space; only the two module laws x + 0 = x and
+    c.0 = 0 are needed, stated as hypotheses). *)
+Section Reduction.
+  Context {F : Type} {o : Ops F} {V : Type} {vo : VOps F V}.
+  Hypothesis vadd_0_r : forall x : V, vadd x vzero = x.
+  Hypothesis vscal_0 : forall c : F, vscal c (vzero : V) = vzero.
+  Lemma vadd_scal0_r (x : V) (c : F) : vadd x (vscal c vzero) = x.
+  Proof. now rewrite vscal_0, vadd_0_r. Qed.
+  Variable Fx G : V -> V.
+  Variable Ginv : V -> F -> V.
+
+  Let G0 : V -> V := fun _ => vzero.
+  Let Gid : V -> F -> V := fun x _ => x.
+  Let F0 : V -> V := fun _ => vzero.
+
+  (** G = 0, G_inv = id: forward Euler, Heun, the explicit 2N Runge-Kutta scheme *)
+  Lemma euler_reduces_to_explicit dt u :
+    euler_step Fx Gid dt u = vadd u (vscal dt (Fx u)).
+  Proof. reflexivity. Qed.
+
+  Lemma cn_rk2_reduces_to_explicit dt u :
+    cn_rk2_step Fx G0 Gid dt u =
+    (let k1 := Fx u in let k2 := Fx (vadd u (vscal dt k1)) in
+     vadd u (vscal dt (vscal half (vadd k2 k1)))).
+  Proof. unfold cn_rk2_step, G0, Gid. cbv zeta. now rewrite !vadd_scal0_r. Qed.
+
+  Lemma ls_reduces_to_explicit dt : forall be ga al h u,
+    length al = S (length be) ->
+    ls_loop Fx G0 Gid dt al be ga h u = ls_explicit_loop Fx dt be ga h u.
+  Proof.
+    induction be as [|b be IH]; intros ga al h u Hl; [reflexivity|].
+    destruct ga as [|g ga]; [reflexivity|].
+    destruct al as [|a0 [|a1 al]]; try (cbn in Hl; lia).
+    cbn [ls_loop ls_explicit_loop]. unfold G0 at 1, Gid at 1.
+    rewrite vadd_scal0_r. apply IH. cbn in *. lia.
+  Qed.
+
+  (** F = 0: backward Euler, one Crank-Nicolson step, the chain of
+      Crank-Nicolson substeps of sizes dt (alpha_{k+1} - alpha_k) *)
+  Lemma euler_reduces_to_implicit dt u :
+    euler_step F0 Ginv dt u = backward_euler_step Ginv dt u.
+  Proof. unfold euler_step, backward_euler_step, F0. now rewrite vadd_scal0_r. Qed.
+
+
+  Lemma cn_rk2_reduces_to_implicit dt u :
+    cn_rk2_step F0 G Ginv dt u = cn_substep G Ginv (half * dt) u.
+  Proof.
+    unfold cn_rk2_step, cn_substep, F0. cbv zeta.
+    now rewrite !vadd_0_r, !vscal_0, !vadd_0_r.
+  Qed.
+
+  Lemma ls_reduces_to_implicit dt : forall be ga al u,
+    length be = length ga -> length al = S (length be) ->
+    ls_loop F0 G Ginv dt al be ga vzero u = cn_chain G Ginv dt al u.
+  Proof.
+    induction be as [|b be IH]; intros ga al u Hg Hl.
+    - destruct al as [|a0 [|a1 al]]; try (cbn in Hl; lia). reflexivity.
+    - destruct ga as [|g ga]; [cbn in Hg; lia|].
+      destruct al as [|a0 [|a1 al]]; try (cbn in Hl; lia).
+      cbn [ls_loop].
+      change (cn_chain G Ginv dt (a0 :: a1 :: al) u)
+        with (cn_chain G Ginv dt (a1 :: al) (cn_substep G Ginv (half * dt * (a1 - a0)) u)).
+      unfold cn_substep.
+      replace (vadd (F0 u) (vscal b vzero)) with (vzero : V)
+        by (unfold F0; now rewrite vscal_0, vadd_0_r).
+      rewrite vscal_0, vadd_0_r.
+      apply IH; cbn in *; lia.
+  Qed.
+End Reduction.
+
+(** * 6 (partial). Step functions vs. additive Runge-Kutta form, linear test equation.
+    In the series algebra (F = x., G = y., G_inv exact) the hand-written / low-storage
+    step functions coincide with [ark_step] on the Butcher forms used for the order
+    conditions, and the zero-skipping lazy interpreter coincides with [ark_step]. *)
+Section ArkSeries.
+  Let N := 6%nat.
+  Let vo := @SerOps Q QOps N.
+  Let Fx := @smulx Q QOps N.
+  Let G := @smuly Q QOps.
+  Let Gi := @sinv Q QOps N.
+  Definition ser_ark (t : TQ) : @ser Q :=
+    ark_step (vo := vo) Fx G Gi 1%Q (t_aex t) (t_aim t) (t_bex t) (t_bim t) (sone N).
+End ArkSeries.
+Definition ser_eqb (a b : @ser Q) : bool :=
+  Nat.eqb (length a) (length b) &&
+  forallb (fun p => Nat.eqb (length (fst p)) (length (snd p)) &&
+                    forallb (fun q => Qeq_bool (fst q) (snd q)) (combine (fst p) (snd p))) (combine a b).
+
+Lemma stepfn_is_ark_linear_series :
+  ser_eqb (ser_ark euler_tab) ser_euler = true /\
+  ser_eqb (ser_ark rk2_tab) ser_rk2 = true /\
+  ser_eqb (ser_ark rk3_tab) ser_rk3 = true /\
+  ser_eqb (ser_ark rk4_tab) ser_rk4 = true /\
+  ser_eqb (ser_ark sil3_tab) (some_ser ser_sil3) = true.
+Proof. repeat (match goal with |- _ /\ _ => split end); vm_compute; reflexivity. Qed.
+
+(** * 6. The zero-skipping, lazily evaluating interpreter [imex_step] computes the
+    additive Runge-Kutta step [ark_step], for every tableau (all shapes), every
+    carrier and module with x + 0 = x and 0.x = 0, every F, G, G_inv. *)
+Section ImexIsArk.
+  Context {F : Type} {o : Ops F} {V : Type} {vo : VOps F V}.
+  Hypothesis nz_false_zero : forall c : F, nz c = false -> c = 0.
+  Hypothesis vadd_0_r : forall x : V, vadd x vzero = x.
+  Hypothesis vscal_0_l : forall x : V, vscal 0 x = vzero.
+  Variable Fx G : V -> V.
+  Variable Ginv : V -> F -> V.
+
+  Definition ok_at (c : F) (x : option V) (x' : V) : Prop := x = Some x' \/ nz c = false.
+
+  Lemma wsum_skip_ok : forall cs xs xs' acc,
+    length xs = length xs' ->
+    (forall j, (j < length xs)%nat -> ok_at (nth j cs 0) (nth j xs None) (nth j xs' vzero)) ->
+    wsum_skip cs xs acc = Some (wsum cs xs' acc).
+  Proof.
+    induction cs as [|c cs IH]; intros xs xs' acc Hl H.
+    - destruct xs; reflexivity.
+    - destruct xs as [|x xs], xs' as [|x' xs']; cbn in Hl; try discriminate; [reflexivity|].
+      cbn [wsum_skip wsum].
+      assert (H0 := H 0%nat ltac:(cbn; lia)). cbn [nth] in H0.
+      assert (Hs : forall j, (j < length xs)%nat -> ok_at (nth j cs 0) (nth j xs None) (nth j xs' vzero)).
+      { intros j Hj. apply (H (S j)). cbn. lia. }
+      destruct (nz c) eqn:E.
+      + destruct H0 as [->|H0]; [|congruence]. apply IH; [lia|exact Hs].
+      + rewrite (nz_false_zero c E), vscal_0_l, vadd_0_r. apply IH; [lia|exact Hs].
+  Qed.
+
+  Definition INV (rows : list (list F)) (b : list F) (l : list (option V)) (l' : list V) : Prop :=
+    length l = length l' /\
+    forall j, (j < length l)%nat ->
+      nth j l None = Some (nth j l' vzero) \/
+      ((forall row, In row rows -> nz (nth j row 0) = false) /\ nz (nth j b 0) = false).
+
+  Lemma INV_row re rows b l l' : INV (re :: rows) b l l' ->
+    forall j, (j < length l)%nat -> ok_at (nth j re 0) (nth j l None) (nth j l' vzero).
+  Proof.
+    intros [_ H] j Hj. destruct (H j Hj) as [E|[E _]]; [now left|right]. apply E. now left.
+  Qed.
+  Lemma INV_b rows b l l' : INV rows b l l' ->
+    forall j, (j < length l)%nat -> ok_at (nth j b 0) (nth j l None) (nth j l' vzero).
+  Proof. intros [_ H] j Hj. destruct (H j Hj) as [E|[_ E]]; [now left|now right]. Qed.
+  Lemma INV_weaken rows b l l' : INV rows b l l' -> INV [] b l l'.
+  Proof.
+    intros [Hl H]. split; [exact Hl|]. intros j Hj. destruct (H j Hj) as [E|[_ E]]; [now left|right].
+    split; [intros row []|exact E].
+  Qed.
+  Lemma existsb_false_all {A} (f : A -> bool) l : existsb f l = false -> forall x, In x l -> f x = false.
+  Proof.
+    induction l as [|a l IH]; cbn; intros H x Hx; [contradiction|].
+    apply orb_false_iff in H. destruct H as [H1 H2]. destruct Hx as [<-|Hx]; auto.
+  Qed.
+  Lemma INV_step re rows b l l' y : INV (re :: rows) b l l' ->
+    INV rows b (l ++ [if needed (length l) rows b then Some y else None]) (l' ++ [y]).
+  Proof.
+    intros [Hl H]. split; [rewrite !app_length; cbn; lia|].
+    intros j Hj. rewrite app_length in Hj. cbn in Hj.
+    destruct (Nat.eq_dec j (length l)) as [->|Hne].
+    - rewrite nth_middle. rewrite Hl at 2. rewrite nth_middle.
+      destruct (needed (length l) rows b) eqn:E; [now left|right].
+      unfold needed in E. apply orb_false_iff in E. destruct E as [E1 E2]. split; [|exact E2].
+      intros row Hr. exact (existsb_false_all _ _ E1 row Hr).
+    - assert (Hj' : (j < length l)%nat) by lia.
+      rewrite !app_nth1 by lia.
+      destruct (H j Hj') as [E|[E1 E2]]; [now left|right]. split; [|exact E2].
+      intros row Hr. apply E1. now right.
+  Qed.
+
+  Lemma stages_ok dt y0 b_ex b_im : forall rex rim fs gs fs' gs',
+    length fs = length gs -> INV rex b_ex fs fs' -> INV rim b_im gs gs' ->
+    exists fsL gsL,
+      imex_stages Fx G Ginv dt y0 b_ex b_im (length fs) rex rim fs gs = Some (fsL, gsL) /\
+      INV [] b_ex fsL (fst (ark_stages Fx G Ginv dt y0 (length fs) rex rim fs' gs')) /\
+      INV [] b_im gsL (snd (ark_stages Fx G Ginv dt y0 (length fs) rex rim fs' gs')).
+  Proof.
+    induction rex as [|re rex IH]; intros rim fs gs fs' gs' Hfg If Ig.
+    - exists fs, gs. split; [reflexivity|]. cbn [ark_stages fst snd].
+      split; [exact If|exact (INV_weaken _ _ _ _ Ig)].
+    - destruct rim as [|ri rim].
+      + exists fs, gs. split; [reflexivity|]. cbn [ark_stages fst snd].
+        split; [exact (INV_weaken _ _ _ _ If)|exact Ig].
+      + cbn [imex_stages ark_stages].
+        rewrite (wsum_skip_ok re fs fs' vzero (proj1 If) (INV_row _ _ _ _ _ If)).
+        rewrite (wsum_skip_ok ri gs gs' vzero (proj1 Ig) (INV_row _ _ _ _ _ Ig)).
+        cbv zeta.
+        set (Y := Ginv (vadd (vadd y0 (vscal dt (wsum re fs' vzero))) (vscal dt (wsum ri gs' vzero)))
+                       (dt * nth (length fs) ri 0)%F).
+        pose proof (INV_step _ _ _ _ _ (Fx Y) If) as If2.
+        pose proof (INV_step _ _ _ _ _ (G Y) Ig) as Ig2.
+        rewrite <- Hfg in Ig2.
+        assert (Hl2 : length (fs ++ [if needed (length fs) rex b_ex then Some (Fx Y) else None]) =
+                      length (gs ++ [if needed (length fs) rim b_im then Some (G Y) else None]))
+          by (rewrite !app_length; cbn; lia).
+        destruct (IH rim _ _ _ _ Hl2 If2 Ig2) as (fsL & gsL & E & I1 & I2).
+        rewrite app_length in E, I1, I2. cbn [length] in E, I1, I2. rewrite Nat.add_1_r in E, I1, I2.
+        exists fsL, gsL. repeat split; auto; try apply I1; try apply I2.
+  Qed.
+
+  Theorem imex_is_ark dt a_ex a_im b_ex b_im y0 :
+    imex_step Fx G Ginv dt a_ex a_im b_ex b_im y0 = Some (ark_step Fx G Ginv dt a_ex a_im b_ex b_im y0).
+  Proof.
+    unfold imex_step, ark_step.
+    assert (If : INV a_ex b_ex [Some (Fx y0)] [Fx y0]).
+    { split; [reflexivity|]. intros [|j] Hj; [now left|cbn in Hj; lia]. }
+    assert (Ig : INV a_im b_im [Some (G y0)] [G y0]).
+    { split; [reflexivity|]. intros [|j] Hj; [now left|cbn in Hj; lia]. }
+    destruct (stages_ok dt y0 b_ex b_im a_ex a_im [Some (Fx y0)] [Some (G y0)] [Fx y0] [G y0] eq_refl If Ig) as (fsL & gsL & E & I1 & I2).
+    cbn [length] in E, I1, I2. rewrite E.
+    destruct (ark_stages Fx G Ginv dt y0 1 a_ex a_im [Fx y0] [G y0]) as [fsA gsA]. cbn [fst snd] in I1, I2.
+    rewrite (wsum_skip_ok b_ex fsL fsA vzero (proj1 I1) (INV_b _ _ _ _ I1)).
+    rewrite (wsum_skip_ok b_im gsL gsA vzero (proj1 I2) (INV_b _ _ _ _ I2)).
+    reflexivity.
+  Qed.
+End ImexIsArk.
